@@ -456,10 +456,12 @@ def gen_tied_case(rng, i, nsg=None, extras=True):
         return Case(mb, info, cmds=cmds, data=data, desc=[(c["regex"], c["operation"], c["alg"]) for c in cmds])
     if r < 0.5:
         cmds.append({"k": "add", "regex": ".*", "operation": "FULLY_CONNECTED", "cfg": rng.choice(list(pl.UNIFORM.values())), "alg": "min_max_uniform_quantize"})
-    elif r < 0.65:
+    elif r < 0.75:
         # the sharers get DIFFERENT modes with IDENTICAL weight settings (dynamic range vs weight only, 8 or 4 bit): the stored data
-        # can be shared, but each consumer must still run in its own mode
-        pair = rng.choice([("drq8", "wo8"), ("wo8", "drq8"), ("drq4c", "wo4"), ("wo4", "drq4c")])
+        # can be shared, but each consumer must still run in its own mode -- or with DIFFERENT weight settings (other width, other
+        # symmetry, other granularity): one stored copy cannot serve both, the recipe has to be refused
+        pair = rng.choice([("drq8", "wo8"), ("wo8", "drq8"), ("drq4c", "wo4"), ("wo4", "drq4c"),
+                           ("drq8", "wo8a"), ("wo8a", "drq8"), ("wo8", "drq4"), ("drq4", "wo8"), ("drq8t", "wo8"), ("wo4a", "drq4c")])
         for j, n in enumerate(names):
             cmds.append({"k": "add", "regex": re.escape(n), "operation": "*", "cfg": pl.UNIFORM[pair[j % 2]], "alg": "min_max_uniform_quantize"})
     else:
